@@ -9,6 +9,7 @@ OpenMP regions whose code runs on every thread (manual chunking by omp_get_threa
 is then decided separately for each team size T of TEAMS with the thread id expanded (bounded in T and labelled so); a counterexample names T,
 the sizes and the target element and is replayed natively under OMP_NUM_THREADS = T.
 """
+import re
 import time
 
 from fractions import Fraction as Q
@@ -114,12 +115,39 @@ _INT_FNS = {("fn", "idiv"): lambda a, b: int(a) // int(b) if (int(a) >= 0) == (i
             ("fn", "imod"): lambda a, b: int(__import__("math").fmod(int(a), int(b))), ("fn", "trunc"): lambda a: int(a)}
 
 
-def confirm_uncovered(events, env, tgt_value, limit=400000):
+class _LazyEnv(dict):
+    """A concrete environment in which integer-square-root variables (csym.isqrt_defs: name -> radicand) are computed on demand from the values the
+    enclosing loop variables have at that point — they are functions of those, not free inputs."""
+    defs = {}
+
+    def __contains__(self, k):
+        return dict.__contains__(self, k) or k in self.defs
+
+    def __getitem__(self, k):
+        if dict.__contains__(self, k):
+            return dict.__getitem__(self, k)
+        if k in self.defs:
+            import math
+            u = int(tm.evaluate(tm.lift(self.defs[k]), self))
+            if u < 0:
+                raise ValueError(k)
+            return math.isqrt(u)
+        raise KeyError(k)
+
+    def extended(self, name, x):
+        e2 = _LazyEnv(self)
+        e2.defs = self.defs
+        e2[name] = x
+        return e2
+
+
+def confirm_uncovered(events, env, tgt_value, limit=400000, defs=None):
     """Exact check on ONE concrete input (every size, the team size and the target element fixed by `env`): enumerate every instance of every store event and
     see whether any writes the target element.  True = no instance does (a genuine counterexample), False = some instance does (the solver's model only defeated
     the instantiation schemes), None = not computable (tables / data-dependent terms without a value)."""
     import re
-    ev_env = dict(_INT_FNS)
+    ev_env = _LazyEnv(_INT_FNS)
+    ev_env.defs = dict(defs or {})
     tables = {}
     for k, v in env.items():
         m_ = re.match(r"^(.+)\[(-?\d+(?:, -?\d+)*)\]$", str(k))
@@ -158,9 +186,7 @@ def confirm_uncovered(events, env, tgt_value, limit=400000):
         for x in range(lo_, hi_, max(st_, 1)):
             if count[0] > limit:
                 raise LookupError
-            e2 = dict(env_)
-            e2[v.args[0]] = x
-            if rec(e, k + 1, e2):
+            if rec(e, k + 1, env_.extended(v.args[0], x)):
                 return True
         return False
     try:
@@ -172,6 +198,77 @@ def confirm_uncovered(events, env, tgt_value, limit=400000):
     except LookupError:
         return None
     return True
+
+
+def _concrete_env(inp, defs):
+    base = _LazyEnv(_INT_FNS)
+    base.defs = dict(defs or {})
+    tabs = {}
+    for k, v in inp.items():
+        m_ = re.match(r"^(.+)\[(-?\d+)\]$", str(k))
+        if m_:
+            tabs.setdefault(m_.group(1), {})[int(m_.group(2))] = v
+        else:
+            base[str(k)] = v
+    for name, tab in tabs.items():
+        base[("fn", name)] = lambda *a, tab=tab: tab[int(a[0])]
+    return base
+
+
+def written_set(events, env, limit=2000000):
+    """Every element index some instance of `events` writes on the concrete input `env` (a _LazyEnv): exact enumeration of the loop nests."""
+    out = set()
+    count = [0]
+
+    def rec(e, k, env_):
+        if k == len(e.qvars):
+            count[0] += 1
+            if count[0] > limit:
+                raise OverflowError
+            if all(tm.evaluate(tm.lift(g), env_) for g in e.guards):
+                out.add(int(tm.evaluate(tm.lift(e.idx), env_)))
+            return
+        v, lo, hi, step = e.qvars[k]
+        lo_, hi_, st_ = int(tm.evaluate(tm.lift(lo), env_)), int(tm.evaluate(tm.lift(hi), env_)), int(tm.evaluate(tm.lift(step), env_))
+        for x in range(lo_, hi_, max(st_, 1)):
+            rec(e, k + 1, env_.extended(v.args[0], x))
+    for e in events:
+        rec(e, 0, env)
+    return out
+
+
+def probe(events, targets, tgt_idx, inputs, defs=None, limit=200000):
+    """Concrete-input stand-in for events the instantiation schemes do not reach (loops over a data-dependent shell index, integer square roots): on each
+    input of `inputs` (every scalar and every table entry given) enumerate every store instance exactly, then every element of the required set.
+    Returns ("refuted", detail, witness) for the first element no instance writes, ("bounded", detail, None) when every element of every input is written,
+    ("undecided", detail, None) when something is not computable.  Never a proof: labelled bounded."""
+    n_el = 0
+    for inp in inputs:
+        base = _concrete_env(inp, defs)
+
+        def elems(k, env_):
+            if k == len(targets):
+                yield env_
+                return
+            t, lo, hi = targets[k]
+            for x in range(int(tm.evaluate(tm.lift(lo), env_)), int(tm.evaluate(tm.lift(hi), env_))):
+                for r in elems(k + 1, env_.extended(t.args[0], x)):
+                    yield r
+        try:
+            written = written_set(events, base)
+            for env_ in elems(0, base):
+                n_el += 1
+                if n_el > limit:
+                    return "undecided", "more than %d elements" % limit, None
+                tv = int(tm.evaluate(tm.lift(tgt_idx), env_))
+                if tv not in written:
+                    w = dict((str(k), v) for k, v in inp.items())
+                    w.update({t.args[0]: int(env_[t.args[0]]) for t, _, _ in targets})
+                    w["target_element"] = tv
+                    return "refuted", "no store instance writes element %s on this input (every instance enumerated)" % tv, w
+        except (KeyError, ValueError, ZeroDivisionError, OverflowError) as e:
+            return "undecided", "probe input not computable: %r" % (e,), None
+    return "bounded", "%d required elements on %d concrete inputs, each written by some store instance" % (n_el, len(inputs)), None
 
 
 def coverage(events, targets, tgt_idx, hyps, timeout=10.0, teams=TEAMS):
